@@ -40,7 +40,7 @@ MANIFEST = {
 
 BOUNDS = {"quick": {"objects": "2x3, 3x2 actions", "chain_lengths": "2..7", "roundtrip_graphs": "3 vertices, 2 links, 1 universe"},
           "thorough": {"objects": "2x3, 3x2, 3x3 actions", "chain_lengths": "2..9", "roundtrip_graphs": "3 vertices, 2-3 links"}}
-TIME_BUDGET = {"quick": 400, "thorough": 3000}
+TIME_BUDGET = {"quick": 400, "thorough": 1200}
 STUBS = ["dill.Pickler -> abstract recursive pickler over symbolic action programs (harness source, also used natively "
          "under the real nrpickler module)", "pickle / io -> real modules (constants only)"]
 ASSUMPTIONS = ["well-founded action programs", "real byte-level round trips are replays, not proofs"]
